@@ -58,6 +58,19 @@ var wireT = reflect.TypeOf(enc.Wire{})
 var durT = reflect.TypeOf(time.Duration(0))
 var compT = reflect.TypeOf(enc.Component{})
 
+// mix decorrelates the variant numbers of sibling fields (so that e.g. "first field present, second nil" and the
+// reverse both occur); variant 0..2 keep the plain numbering so the smallest cases stay simple
+func mix(k, i, depth int) int {
+	if k < 3 {
+		return k + i*3
+	}
+	x := uint32(k)*2654435761 ^ uint32(i+1)*40503 ^ uint32(depth+1)*2246822519
+	x ^= x >> 15
+	x *= 2246822519
+	x ^= x >> 13
+	return int(x % 10007)
+}
+
 // nonNil picks a variant number for which pointers, names, wires and byte strings are present
 func nonNil(k int) int {
 	for k%3 == 0 || k%4 == 0 || k%5 == 0 {
@@ -79,7 +92,7 @@ func fill(v reflect.Value, k int, depth int) bool {
 		if !f.CanSet() {
 			continue
 		}
-		ok = setVal(f, k+i*3, depth) && ok
+		ok = setVal(f, mix(k, i, depth), depth) && ok
 	}
 	return ok
 }
@@ -550,4 +563,176 @@ func js(v any) string {
 		return string(b[:400]) + "..."
 	}
 	return string(b)
+}
+
+// ---------------------------------------------------------------------------------------------------------
+// C04: structure-aware mutations of valid encodings, fed to every decoder through both readers.
+
+type mutant struct {
+	class string // descriptor class (spec/tlv/RecvPath.tla MutClasses)
+	b     []byte
+	cut   int // where to split for the segmented reader
+}
+
+var hugeLens = []uint64{0, 1, 252, 253, 65535, 65536, 1 << 31, 1 << 32, 1 << 47, 1 << 62, 1 << 63, ^uint64(0)}
+
+// all TLV headers found by walking b recursively (an element is descended into when its value tiles as TLVs)
+func allSpans(b []byte, base int, depth int, out *[]span) {
+	sp, ok := tlvSpans(b)
+	if !ok {
+		return
+	}
+	for _, s := range sp {
+		*out = append(*out, span{base + s.start, s.hdr, base + s.end, s.typ})
+		if depth < 4 && s.end-s.start-s.hdr >= 2 {
+			var inner []span
+			allSpans(b[s.start+s.hdr:s.end], base+s.start+s.hdr, depth+1, &inner)
+			*out = append(*out, inner...)
+		}
+	}
+}
+
+func mutants(wire []byte, maxTrunc int) []mutant {
+	var out []mutant
+	var sp []span
+	allSpans(wire, 0, 0, &sp)
+	if len(sp) > 40 {
+		sp = sp[:40]
+	}
+	for _, s := range sp {
+		_, n1 := readVar(wire[s.start:])
+		vlen := uint64(s.end - s.start - s.hdr)
+		// every length field replaced by boundary and huge values
+		for _, l := range append(append([]uint64{}, hugeLens...), vlen-1, vlen+1, vlen+2) {
+			if l == vlen {
+				continue
+			}
+			h := tlvHdr(s.typ, l)
+			m := append(append(append([]byte{}, wire[:s.start]...), h...), wire[s.start+s.hdr:]...)
+			out = append(out, mutant{"len", m, s.start + len(h)})
+		}
+		// type confusion: the element's type replaced by another type seen in this encoding, and by 0 / a huge one
+		for _, t := range []uint64{0, 7, 8, 36, 80, 100, 253, 65535, 1 << 32} {
+			if t == s.typ {
+				continue
+			}
+			tb := tlvHdr(t, 0)
+			tb = tb[:len(tb)-1]
+			m := append(append(append([]byte{}, wire[:s.start]...), tb...), wire[s.start+n1:]...)
+			out = append(out, mutant{"type", m, s.start + len(tb)})
+		}
+	}
+	// nested-length disagreement: an inner element announcing more than its parent holds
+	for i, s := range sp {
+		for _, c := range sp[i+1:] {
+			if c.start >= s.start+s.hdr && c.end <= s.end && c.start > s.start {
+				parentLen := uint64(s.end - s.start - s.hdr)
+				h := tlvHdr(c.typ, parentLen+5)
+				m := append(append(append([]byte{}, wire[:c.start]...), h...), wire[c.start+c.hdr:]...)
+				out = append(out, mutant{"nested", m, c.start + 1})
+				break
+			}
+		}
+	}
+	// truncation at every offset (bounded number of offsets, always including header interiors)
+	step := 1
+	if len(wire) > maxTrunc {
+		step = len(wire)/maxTrunc + 1
+	}
+	for cut := 0; cut < len(wire); cut += step {
+		out = append(out, mutant{"trunc", append([]byte{}, wire[:cut]...), cut / 2})
+	}
+	return out
+}
+
+type c04Outcome struct {
+	outcome string
+	alloc   uint64
+}
+
+// guard runs f under recover(), an allocation budget and a time budget
+func guard(inputLen int, f func()) (out string, alloc uint64, detail string) {
+	var m0, m1 runtimeMem
+	readMem(&m0)
+	t0 := time.Now()
+	out = "ok"
+	func() {
+		defer func() {
+			if r := recover(); r != nil {
+				out = "PANIC"
+				detail = fmt.Sprint(r)
+			}
+		}()
+		f()
+	}()
+	el := time.Since(t0)
+	readMem(&m1)
+	alloc = m1.total - m0.total
+	if out == "ok" && alloc > uint64(64*inputLen)+(1<<20) {
+		out = "OVERALLOC"
+		detail = fmt.Sprint(alloc, " bytes for ", inputLen, " input bytes")
+	}
+	if out == "ok" && el > 2*time.Second {
+		out = "SPIN"
+	}
+	return
+}
+
+// TestC04Dec: every decoder of the registry x valid seeds x mutants x {contiguous, segmented}.
+// Cases are numbered; the index of the case about to run is written to $VERIF_OUT/c04dec.progress so that the
+// driver can attribute an abnormal exit (runtime fatal error) to it and resume after it ($VERIF_FROM).
+func TestC04Dec(t *testing.T) {
+	from := envInt("VERIF_FROM", 0)
+	nVar := envInt("VERIF_VARIANTS", 6)
+	maxTrunc := envInt("VERIF_TRUNC", 40)
+	dir := os.Getenv("VERIF_OUT")
+	fo, err := os.OpenFile(filepath.Join(dir, "c04dec.ndjson"), os.O_APPEND|os.O_CREATE|os.O_WRONLY, 0o644)
+	if err != nil {
+		panic(err)
+	}
+	defer fo.Close()
+	w := bufio.NewWriter(fo)
+	defer w.Flush()
+	prog, _ := os.Create(filepath.Join(dir, "c04dec.progress"))
+	defer prog.Close()
+	if from == 0 {
+		emit(w, map[string]any{"ev": "Reset", "models": len(registry)})
+	}
+	idx := 0
+	classes := map[string]int{}
+	for _, sd := range buildSeeds(nVar, true) {
+		m := registry[sd.model]
+		for _, mu := range mutants(sd.wire, maxTrunc) {
+			for _, seg := range []bool{false, true} {
+				idx++
+				if idx <= from {
+					continue
+				}
+				prog.Seek(0, 0)
+				fmt.Fprintf(prog, "%d %s %d %s %v %x\n", idx, m.name, sd.k, mu.class, seg, trunc(mu.b, 64))
+				var rd enc.ParseReader
+				if seg && mu.cut > 0 && mu.cut < len(mu.b) {
+					rd = enc.NewWireReader(enc.Wire{mu.b[:mu.cut], mu.b[mu.cut:]})
+				} else {
+					rd = enc.NewBufferReader(mu.b)
+				}
+				decoded := false
+				out, alloc, detail := guard(len(mu.b), func() {
+					v, err := m.parse(rd, false)
+					decoded = err == nil && v != nil
+				})
+				classes[mu.class]++
+				row := map[string]any{"ev": "dec", "i": idx, "model": m.name, "k": sd.k, "class": mu.class, "seg": seg, "outcome": out, "decoded": decoded, "alloc": alloc, "len": len(mu.b)}
+				if out != "ok" {
+					row["detail"] = detail
+					row["input"] = fmt.Sprintf("%x", trunc(mu.b, 96))
+				}
+				emit(w, row)
+				if idx%2000 == 0 {
+					w.Flush()
+				}
+			}
+		}
+	}
+	emit(w, map[string]any{"ev": "done", "cases": idx, "classes": classes})
 }
